@@ -254,7 +254,8 @@ Definition avail_transfer (c : cnode) (ri : regmap) (mi : memmap) : regmap * mem
   let r5 := rule_perform_math_ops n r4 ri in
   let m3 := rule_push_value_to_csr_memory n m2 r5 in
   let m4 := rule_known_values_to_stack m3 ri in
-  (r5, m4).
+  (* nothing is ever recorded for x0 *)
+  (rm_remove_set const_zero_set r5, m4).
 
 Definition avail_node (g : list cnode) (visited : list nat) (i : nat) : list cnode * bool :=
   match getn g i with
